@@ -201,7 +201,7 @@ func (g *c11Gen) value(depth int, leaves []string) (string, interface{}) {
 		return leaves[k], v
 	}
 	sub := leaves
-	if depth == 2 {
+	if depth == 2 && len(leaves) > 4 {
 		sub = leaves[:4]
 	}
 	if depth == 1 && len(leaves) > 4 {
@@ -335,6 +335,10 @@ func init() {
 				text, want := g.value(depth, leaves)
 				c.Done()
 				if !utf8.ValidString(text) {
+					return
+				}
+				if depth >= 3 {
+					c11CheckOn(x, text, want, true, c11Inputs[1:2]) // the deepest structures on one input
 					return
 				}
 				c11Check(x, text, want, true)
